@@ -36,6 +36,31 @@ CHECKS = {
             T_TIE + "Metamorphic equivalences are checked on the implementation only (differential run).",
             "Coq proof over source-extracted test-case constants + differential run of all decoder test case generators",
             "DESIGN.md 3 C05"),
+    "C24": (True,
+            "Theorem: for command families whose write sets are pairwise path-disjoint, every execution (any serial order, any concurrent "
+            "interleaving of the atomic writes, any length) leaves the same file system. PARTIAL: the hypotheses are measured on the real "
+            "worker commands (per-command write sets by tree diff, disjointness) and determinism across processes/hash seeds is decided by "
+            "comparing the trees of the serial run, a shuffled one-by-one run and a 16-way concurrent run byte for byte.",
+            C_TIE + "Process scheduling, pickle, the OS file system and hash randomisation are runtime behaviour the model cannot exhibit; "
+            "natural pictures are replaced by the test suite's small ones in the harness's subprocesses.",
+            "Coq proof of write-commutation + measured hypotheses + differential serial/shuffled/concurrent generator runs",
+            "DESIGN.md 3 C24"),
+    "C25": (True,
+            "Theorems on the command's logic core: exit status 0 iff the decoder accepts, 2 iff it raises a conformance error, never 3 unless "
+            "another exception occurs (excluded by C02); the output callback writes picture k to pattern%k for every number of pictures, "
+            "numbered from 0, no file overwritten for an injective pattern. PARTIAL: the real main() (argparse, file contents, located "
+            "explanation) is compared with the in-process decoder on encoder streams and mutants with sampled filename patterns.",
+            C_TIE + "The Cli model is a transcription of run()/_output_picture; file I/O, JSON/raw writers, argparse are trusted/differentially tested.",
+            "Coq proof on the exit-status/numbering state machine + differential run of the real command",
+            "DESIGN.md 3 C25"),
+    "C26": (True,
+            "Theorems on the viewer's classification: status 255 iff the failure is classed as a viewer-internal exception; every other "
+            "outcome yields a status in {0,1,2,3,4}; tracebacks (any depth) whose innermost viewer/vc2 frame lies in bitstream/vc2.py are "
+            "parse failures. PARTIAL (weakest of the 28): that the display code itself never raises is decided only by running the real "
+            "viewer main() on random bytes and mutated streams with default and sampled options.",
+            C_TIE + "The display callback, argparse and the deserialiser are exercised by the differential run only.",
+            "Coq proof on the status classification + fuzz-style differential run of the real viewer",
+            "DESIGN.md 3 C26"),
 }
 
 NOT_YET = "check not built yet (work in progress; see DESIGN.md section 7 work order)"
